@@ -193,7 +193,7 @@ def pe(n, minp=-1):
     if t == "call":
         return n["name"]["n"] + "(" + ", ".join(pe(a) for a in n["args"]) + ")"
     if t == "fn":
-        s = "(" + ", ".join(n["params"]) + ") -> " + pb(n["body"], after_expr=False)
+        s = "(" + ", ".join(n["params"]) + ") -> " + pb(n["body"], None)
         return "(" + s + ")" if minp >= 0 else s
     raise ValueError("not an expression: " + t)
 
@@ -220,13 +220,21 @@ def open_if(n):
     return False
 
 
-def pb(n, after_expr=True, before_else=False):
-    """body position: a block is braced; a single statement is braced only when its text would be
-    misread (continues the preceding expression, or captures a following else)"""
+def _after_var(prev):
+    """does the text end in a variable name (so that a following "(" would make it a call)?  true / false are literals"""
+    import re
+    m = re.search(r"([a-z]+)$", prev)
+    return bool(m) and m.group(1) not in ("true", "false") and not re.search(r"[0-9.]$", prev[:m.start()] or " ")
+
+
+def pb(n, prev=None, before_else=False):
+    """body position: a block is braced; a single statement is braced only when its text would be misread: "[" and "-"
+    continue any preceding expression, "(" continues a variable name (a call), an if without else captures a following else.
+    prev: the text of the expression written just before the body (None after a keyword or "->")"""
     if n["t"] == "block":
         return "{\n" + "\n".join(ps(s) for s in n["ss"]) + "\n}"
     s = ps(n)
-    if (after_expr and s[0] in "[(-") or (before_else and open_if(n)):
+    if (prev is not None and (s[0] in "[-" or (s[0] == "(" and _after_var(prev)))) or (before_else and open_if(n)):
         return "{\n" + s + "\n}"
     return s
 
@@ -237,13 +245,14 @@ def ps(n):
     if t == "assign":
         return n["tgt"]["n"] + " = " + pe(n["e"])
     if t == "if":
-        return "if " + pe(n["c"]) + " " + pb(n["th"])
+        return "if " + pe(n["c"]) + " " + pb(n["th"], pe(n["c"]))
     if t == "ifelse":
-        return "if " + pe(n["c"]) + " " + pb(n["th"], before_else=True) + " else " + pb(n["el"], after_expr=False)
+        return "if " + pe(n["c"]) + " " + pb(n["th"], pe(n["c"]), before_else=True) + " else " + pb(n["el"], None)
     if t == "while":
-        return "while " + pe(n["c"]) + " " + pb(n["body"])
+        return "while " + pe(n["c"]) + " " + pb(n["body"], pe(n["c"]))
     if t == "for":
-        return "for " + ", ".join(v["n"] for v in n["vars"]) + " <- " + ", ".join(pe(i) for i in n["iters"]) + " " + pb(n["body"])
+        its = ", ".join(pe(i) for i in n["iters"])
+        return "for " + ", ".join(v["n"] for v in n["vars"]) + " <- " + its + " " + pb(n["body"], its)
     if t == "ret":
         return "return " + pe(n["e"])
     if t == "yield":
@@ -330,7 +339,7 @@ def _raw(n, lay):
             if i:
                 ps_.append(_tk("NS", ","))
             ps_.append(_tk("Name", p))
-        return -1, [_tk("NS", "(")] + ps_ + [_tk("NS", ")"), _tk("Sticky", "->")] + pr_b(n["body"], False, False, lay)
+        return -1, [_tk("NS", "(")] + ps_ + [_tk("NS", ")"), _tk("Sticky", "->")] + pr_b(n["body"], [], False, lay)
     raise ValueError("not an expression: " + t)
 
 
@@ -341,14 +350,16 @@ def pr_e(n, minp, lay):
     return _paren(ts) if lv < minp else ts
 
 
-def pr_b(n, after_expr, before_else, lay):
+def pr_b(n, prev, before_else, lay):
+    """prev: the tokens of the expression written just before the body ([] after a keyword or "->"); same rule as pb / PrB"""
     if n["t"] == "block":
         out = [_tk("NS", "{"), _tk("EOL", "#eol")] + ([_tk("EOL", "#eol")] if lay == "eols" else [])
         for s in n["ss"]:
             out += pr_s(s, lay) + [_tk("EOL", "#eol")] + ([_tk("EOL", "#eol")] if lay == "eols" else [])
         return out + [_tk("NS", "}")]
     ts = pr_s(n, lay)
-    if (after_expr and ts[0]["v"] in ("[", "(", "-")) or (before_else and open_if(n)):
+    after_var = bool(prev) and prev[-1]["k"] == "Name" and prev[-1]["v"] not in ("true", "false")
+    if (prev and (ts[0]["v"] in ("[", "-") or (ts[0]["v"] == "(" and after_var))) or (before_else and open_if(n)):
         return [_tk("NS", "{"), _tk("EOL", "#eol")] + ts + [_tk("EOL", "#eol"), _tk("NS", "}")]
     return ts
 
@@ -359,24 +370,28 @@ def pr_s(n, lay):
     if t == "assign":
         return [_tk("Name", n["tgt"]["n"]), _tk("Sticky", "=")] + pr_e(n["e"], -1, lay)
     if t == "if":
-        return [kw("if")] + pr_e(n["c"], -1, lay) + pr_b(n["th"], True, False, lay)
+        c = pr_e(n["c"], -1, lay)
+        return [kw("if")] + c + pr_b(n["th"], c, False, lay)
     if t == "ifelse":
-        return [kw("if")] + pr_e(n["c"], -1, lay) + pr_b(n["th"], True, True, lay) + [kw("else")] + pr_b(n["el"], False, False, lay)
+        c = pr_e(n["c"], -1, lay)
+        return [kw("if")] + c + pr_b(n["th"], c, True, lay) + [kw("else")] + pr_b(n["el"], [], False, lay)
     if t == "while":
-        return [kw("while")] + pr_e(n["c"], -1, lay) + pr_b(n["body"], True, False, lay)
+        c = pr_e(n["c"], -1, lay)
+        return [kw("while")] + c + pr_b(n["body"], c, False, lay)
     if t == "for":
         vs = []
         for i, v in enumerate(n["vars"]):
             if i:
                 vs.append(_tk("NS", ","))
             vs.append(_tk("Name", v["n"]))
-        return [kw("for")] + vs + [_tk("Sticky", "<-")] + _prlist(n["iters"], lay, False) + pr_b(n["body"], True, False, lay)
+        its = _prlist(n["iters"], lay, False)
+        return [kw("for")] + vs + [_tk("Sticky", "<-")] + its + pr_b(n["body"], its, False, lay)
     if t == "ret":
         return [kw("return")] + pr_e(n["e"], -1, lay)
     if t == "yield":
         return [kw("yield")] + pr_e(n["e"], -1, lay)
     if t == "block":
-        return pr_b(n, False, False, lay)
+        return pr_b(n, [], False, lay)
     return pr_e(n, -1, lay)
 
 
